@@ -186,7 +186,19 @@ class Cache:
 
             # For union, visible columns must match (validated in verb function)
             # Hidden columns: are removed (we don't keep names for them and it is unlike they match in uuid)
-            res.cols = {uid: col for uid, col in self.cols.items() if uid in self.uuid_to_name}
+            # The result columns get the common type of the two sides (the union is accepted if one exists).
+            res.cols = {
+                uid: Col(
+                    name,
+                    self.cols[uid]._ast,
+                    uid,
+                    types.lca_type(
+                        [self.cols[uid].dtype(), right_cache.cols[right_cache.name_to_uuid[name]].dtype()]
+                    ),
+                    self.cols[uid]._ftype,
+                )
+                for uid, name in self.uuid_to_name.items()
+            }
             # Visible columns should match, so we keep left table's name_to_uuid
             # (right table's visible columns are the same by validation)
             res.name_to_uuid = self.name_to_uuid.copy()
